@@ -7,17 +7,17 @@ ACTS = ["Deliver", "Select", "Noop", "Idle", "Store", "Fetch", "Expunge", "Appen
 QUICK = {
     "exhaustive": [("2sess-1mbox-3msgs-depth7", dict(depth=7, maxid=3))],
     "simulate": [("2mbox", dict(mbox=("inbox", "b"), maxid=5, maxpend=6, sets="SetsMedium",
-                                 acts=ACTS + ["Copy", "Move"]), 60, 22)],
+                                 acts=ACTS + ["Copy", "Move", "Search"]), 60, 22)],
     "random": 60,
     "gen": dict(length=30),
 }
 THOROUGH = {
     "exhaustive": [("2sess-1mbox-3msgs-depth9", dict(depth=9, maxid=3)),
                    ("2sess-2mbox-depth6", dict(depth=6, maxid=3, mbox=("inbox", "b"),
-                                               acts=ACTS + ["Copy", "Move"]))],
+                                               acts=ACTS + ["Copy", "Move", "Search"]))],
     "simulate": [("2mbox", dict(mbox=("inbox", "b"), maxid=6, maxpend=8, sets="SetsMedium",
                                  modes=("+", "-", "="), silents="{FALSE, TRUE}",
-                                 acts=ACTS + ["Copy", "Move"]), 1500, 30)],
+                                 acts=ACTS + ["Copy", "Move", "Search"]), 1500, 30)],
     "random": 1500,
     "gen": dict(length=45),
     "tlc_timeout": 3000,
